@@ -8,30 +8,35 @@ PROPERTIES = ["C20"]
 MANIFEST = {
     "C20": {
         "technique": "Lean 4 proof (checked-memory model of Process::Arguments refined to a declarative getopt_long-convention parser; "
-                     "model of splitCommandLine refined to a reference tokenizer with termination on every buffer; argv/environment handed "
-                     "to execvpe; Process object and environment state machines; abstract kernel model: descriptor tables of open(), pipe protocol) "
-                     "+ differential correspondence model vs real Process.cpp "
-                     "+ tests against the real kernel with a helper child",
-        "text": "Theorems over all option tables and argument vectors (result sequence = getopt conventions, no read outside the argument "
-                "strings / option names, termination), all command lines (tokenizer refinement, quoting round trip, termination on every "
-                "buffer), all executable/argument/environment inputs (what reaches execvpe), all call histories of a Process object "
-                "(idle => no descriptor held) and the environment setters/getters; over an explicit abstract kernel model: who holds which pipe end "
-                "after open() (also when vfork fails) and deadlock-free, terminating, intact delivery of stdin/stdout/stderr data and the exit "
-                "code for every pipe capacity, chunking and schedule; the model is tied to the current Process.cpp on every "
-                "run by executing identical op lines on both (exhaustive small scopes, exactly sized heap buffers under ASan, watchdog) and "
-                "by an independent Python reference; exec, pipes, exit codes 0..255 and payload delivery around the pipe capacity are run "
-                "against the real kernel.",
+                     "model of splitCommandLine refined to a reference tokenizer, termination on every buffer, expressibility of every "
+                     "argument vector; argv/environment handed to execvpe; descriptor tables of open()) + assumption-level protocol "
+                     "theorems in an abstract pipe model + differential correspondence model vs real Process.cpp + tests against the "
+                     "real kernel with a helper child",
+        "text": "PROVED about the model of the code, for all inputs: option tables x argument vectors (result sequence = getopt "
+                "conventions, no read outside the argument strings / option names, termination); command lines (tokenizer refinement, "
+                "termination on every buffer, every argument vector is expressible by the quoting rules and read back exactly); what "
+                "open/start pass to execvpe (file, argv, environment) and which pipe ends parent and child hold afterwards (also when "
+                "vfork fails).  ASSUMPTION-LEVEL (theorems named *_in_pipe_model, protocol systems in Kernel.lean: one usage protocol - "
+                "the harness's - against one child shape - the helper's - over bounded FIFO pipes; the parent's/child's moves are derived "
+                "from Process::write/read/close/join as coded and proved to be steps of the system): no deadlock, termination, intact "
+                "delivery, join returns the exit code, also when join is entered while the child still reads its input and writes.  "
+                "TESTED against the real kernel on every run: identical op lines on harness and model driver (exhaustive small scopes, "
+                "exactly sized heap buffers under ASan, watchdog), independent Python reference; exec, pipes, exit codes 0..255, payloads "
+                "around the pipe capacity, join/destructor/kill while the child still reads or writes, descriptor tables through /proc.",
         "note": "Trusted: Lean kernel + standard axioms; hand translation of Process.cpp (POSIX branch) into the model, validated by the "
                 "correspondence run, not proved; checked-memory abstraction (one block per argv word / option name, the option table holds "
-                "null or NUL-free terminated names); Map iteration = ascending key order (C01).  Long options match exactly (no GNU "
-                "abbreviations), non-options are returned in order as character 0.  PARTIAL in the proof sense (theorem "
-                "process_delivery_partial, OPEN block in Props.lean): vfork/execvpe/pipe/dup2/waitpid/select/read/write are the kernel's - "
-                "the model ends at 'what is passed to execvpe and which pipes are requested'; what the child observes, exit codes, "
-                "end-of-file and payload delivery are tested (every start/open form x redirection mask x environment; masks x sizes "
-                "0,1,65535,65536,65537,1 MiB; exit codes; descriptor tables of parent and child read through /proc), not proved; the theorems "
-                "open_pipe_ends_exact / pipe_protocol_delivers / join_returns_exit_code hold in the abstract kernel model of Kernel.lean (FIFO pipes with partial "
-                "transfers, end-of-file when no write end is left, dup2/close/vfork on descriptor tables), whose adequacy for Linux is an assumption.  The '0 = closed' descriptor bookkeeping assumes pipe() never "
-                "returns descriptor 0.  The model mirrors the code repaired by fixes/args/0001-0007.",
+                "null or NUL-free terminated names; argc >= 1); Map iteration = ascending key order (C01).  'getopt rules' means the "
+                "reference parser of Spec.lean: long options match exactly (no GNU abbreviations), non-options are returned in order as "
+                "character 0.  PARTIAL in the proof sense (process_delivery_partial, OPEN block in Props.lean): vfork/execvpe/pipe/dup2/"
+                "waitpid/select/read/write are the kernel's - what the child observes, exit codes, end-of-file and payload delivery on "
+                "Linux are tested, not proved; the *_in_pipe_model theorems and open_pipe_ends_exact hold in the abstract kernel model of "
+                "Kernel.lean whose adequacy is an assumption; join with child output larger than the pipes and nobody reading blocks "
+                "(caller's protocol, outside the theorems); only the vfork-failure path of open() is modelled, not a failing 2nd/3rd "
+                "pipe().  env_*/proc_* theorems are auxiliary (hand abstractions).  The '0 = closed' bookkeeping assumes pipe() never "
+                "returns descriptor 0.  Observations (not defects): with single blanks only between the words a trailing empty word "
+                "cannot be written (a blank behind it can); a fully quoted word ending in a backslash swallows its closing quote "
+                "(write the backslash outside the quotes); join reports 0 for a child terminated by a signal.  The model mirrors the "
+                "code repaired by fixes/args/0001-0008.",
         "design_ref": "DESIGN.md 3/C20",
     }
 }
@@ -632,8 +637,8 @@ def histories_for(ctx):
     ctx.cov["open_statements"] = [
         "run-time delivery (the child observes argv/environ as given, join returns its exit code, redirected bytes arrive intact up to "
         "end-of-file): needs a kernel model; proved part = process_delivery_partial / argv_env_exact* (what is passed to execvpe, which pipes "
-        "are requested), open_pipe_ends_exact and pipe_protocol_delivers (over the abstract kernel model of Kernel.lean); that Linux behaves like "
-        "that model and that execvpe hands argv/envp on unchanged is tested against the real kernel by the run/io/exit/late/sig/killbusy/execfail/p/killtest/fdtable streams"]
+        "are requested), open_pipe_ends_exact and the protocol-level *_in_pipe_model theorems (over the abstract kernel model of Kernel.lean); that Linux behaves like "
+        "that model and that execvpe hands argv/envp on unchanged is tested against the real kernel by the run/io/exit/late/eofjoin/sig/killbusy/execfail/p/killtest/fdtable streams"]
     ctx.cov["exhaustive"] = True
     ctx.cov["exhaustive_scope"] = (f"argv words<={AMAX[quick]} over {len(WORDS)}-word alphabet: {len(ea)}; command lines <= {SMAX[quick]} "
                                    f"symbols over 4: {len(es)}; redirection masks 8 x sizes {len(SIZES)}; exit codes: {len(xl)}")
